@@ -251,3 +251,68 @@ Proof. repeat split; vm_compute; reflexivity. Qed.
 
 Example C16_ex_wf_hdr : wf_hdr (ex_hdr 2).
 Proof. unfold wf_hdr, ex_hdr. cbn [h_ts h_type h_sid h_next h_flags]. lia. Qed.
+
+(* ---------------------------------------------------------------------------------------------------------------
+   Tie to the source.  The functions *_g below are generated from /repo on every run by harness/cmd/gotrans
+   (gen/Trans*.v); the theorems say that, for ALL inputs, they compute what the hand-written model functions used in
+   the statements above compute (res_sim: the same value, or both an error, or both a panic), under the premises Go's
+   types provide.  A change to one of these Go functions that alters its behaviour makes the proof below fail. *)
+From GB Require Import Model.Header Model.Events Model.Rbr Model.Cell Base.GoSem Proofs.TransTactics Proofs.TransEquivCell Proofs.TransEquivMeta Proofs.TransEquivBitmap Proofs.TransEquivHeader Proofs.TransEquivEvents Proofs.TransEquivRbr.
+From GBGen Require Import TransCell TransMeta TransBitmap TransHeader TransEvents TransRbr.
+Open Scope Z_scope.
+
+Theorem C16_tie_Format : forall ev,
+  len_ok ev -> res_sim (binlogEvent_Format_g ev) (res_map Format_of (ev_format ev)).
+Proof. exact binlogEvent_Format_equiv. Qed.
+Print Assumptions C16_tie_Format.
+
+Theorem C16_tie_Rotate : forall ev f,
+  hlen_byte f -> res_sim (binlogEvent_Rotate_g ev (Format_of f)) (ev_rotate f ev).
+Proof. exact binlogEvent_Rotate_equiv. Qed.
+Print Assumptions C16_tie_Rotate.
+
+Theorem C16_tie_Query : forall fuel ev f,
+  wf_bytes ev -> hlen_byte f -> 65536 <= Z.of_nat fuel ->
+  res_sim (binlogEvent_Query_g fuel ev (Format_of f)) (res_map Query_of (ev_query f ev)).
+Proof. exact binlogEvent_Query_equiv_65536. Qed.
+Print Assumptions C16_tie_Query.
+
+Theorem C16_tie_IntVar : forall ev f,
+  hlen_byte f -> res_sim (binlogEvent_IntVar_g ev (Format_of f)) (ev_intvar f ev).
+Proof. exact binlogEvent_IntVar_equiv. Qed.
+Print Assumptions C16_tie_IntVar.
+
+Theorem C16_tie_Rand : forall ev f,
+  hlen_byte f -> res_sim (binlogEvent_Rand_g ev (Format_of f)) (ev_rand f ev).
+Proof. exact binlogEvent_Rand_equiv. Qed.
+Print Assumptions C16_tie_Rand.
+
+Theorem C16_tie_HeaderSize : forall f typ,
+  res_sim (BinlogFormat_HeaderSize_g (Format_of f) typ) (header_size f typ).
+Proof. exact BinlogFormat_HeaderSize_equiv. Qed.
+Print Assumptions C16_tie_HeaderSize.
+
+Theorem C16_tie_Type : forall ev, res_sim (binlogEvent_Type_g ev) (ev_type ev).
+Proof. exact binlogEvent_Type_equiv. Qed.
+Print Assumptions C16_tie_Type.
+
+Theorem C16_tie_Flags : forall ev, res_sim (binlogEvent_Flags_g ev) (ev_flags ev).
+Proof. exact binlogEvent_Flags_equiv. Qed.
+Print Assumptions C16_tie_Flags.
+
+Theorem C16_tie_Timestamp : forall ev, res_sim (binlogEvent_Timestamp_g ev) (ev_timestamp ev).
+Proof. exact binlogEvent_Timestamp_equiv. Qed.
+Print Assumptions C16_tie_Timestamp.
+
+Theorem C16_tie_ServerID : forall ev, res_sim (binlogEvent_ServerID_g ev) (ev_server_id ev).
+Proof. exact binlogEvent_ServerID_equiv. Qed.
+Print Assumptions C16_tie_ServerID.
+
+Theorem C16_tie_Length : forall ev, res_sim (binlogEvent_Length_g ev) (ev_length ev).
+Proof. exact binlogEvent_Length_equiv. Qed.
+Print Assumptions C16_tie_Length.
+
+Theorem C16_tie_NextPosition : forall ev, res_sim (binlogEvent_NextPosition_g ev) (ev_next_position ev).
+Proof. exact binlogEvent_NextPosition_equiv. Qed.
+Print Assumptions C16_tie_NextPosition.
+
